@@ -88,6 +88,14 @@ pub open spec fn at(e: Error, loc: Location) -> bool {
 pub open spec fn inner(e: Error) -> Error {
     match e { Error::AtLoc{source, line, col} => *source, _ => e }
 }
+// the error of a failing `slot op= rhs`, if the operator is what fails
+pub open spec fn op_error(old_slot: SourcedValue, rhs: SourcedValue, op: Option<(BinaryOp, Location)>) -> Option<Error> {
+    match op { Some(o) => match sem_apply(o.0, o.1, old_slot.v, rhs.v) { Err(e) => Some(e), Ok(_) => None }, None => None }
+}
+// the position shown for a failing op-assign on an element / property is the operator error's own position
+pub open spec fn shows_op_position(r: Result<()>, old_slot: SourcedValue, rhs: SourcedValue, op: Option<(BinaryOp, Location)>) -> bool {
+    op_error(old_slot, rhs, op) matches Some(e0) ==> (r matches Err(e) && first_pos(e) == first_pos(e0))
+}
 pub open spec fn bindable(e: RawExpr) -> bool {
     e is Var || e is Index || e is RangeIndex || e is Prop || e is Object || e is List
 }
@@ -155,6 +163,28 @@ SPEC_NEXT = r"""
                     _ => r is Err && at(r->Err_0, lhs.1) && inner(r->Err_0) is PropAccessOnNonObject,
                 },
             } }), // [C12_C16:property_write_follows_the_same_rules_as_string_index_write_and_a_non_object_target_is_an_error]
+        // ---- C18: "the position attached ... to an operator type/overflow error [is] that of the operator", also for `x[i] op= v` / `o.k op= v`
+        lhs.0 matches RawExpr::Index{expr, location} ==> (match sem_expr(old(scopes).world(), *expr).0 {
+            Err(_) => true,
+            Ok(base) => match base.v {
+                Value::List(l) => match sem_index(sem_expr(old(scopes).world(), *expr).1, *location).0 {
+                    Ok(n) => n < l.0.0@.len() ==> shows_op_position(r, l.0.0@[n as int], rhs, op),
+                    Err(_) => true,
+                },
+                Value::Object(o) => match sem_str(sem_expr(old(scopes).world(), *expr).1, *location).0 {
+                    Ok(k) => o.0.0@.contains_key(k@) ==> shows_op_position(r, o.0.0@[k@], rhs, op),
+                    Err(_) => true,
+                },
+                _ => true,
+            },
+        }), // [C18:a_failing_op_assign_on_an_element_shows_the_position_of_the_operator_first]
+        lhs.0 matches RawExpr::Prop{expr, name, type_prop} ==> (!type_prop ==> (match sem_expr(old(scopes).world(), *expr).0 {
+            Ok(base) => match base.v {
+                Value::Object(o) => o.0.0@.contains_key(name@) ==> shows_op_position(r, o.0.0@[name@], rhs, op),
+                _ => true,
+            },
+            Err(_) => true,
+        })), // [C18:a_failing_op_assign_on_a_property_shows_the_position_of_the_operator_first]
         lhs.0 matches RawExpr::RangeIndex{expr, start, end} ==> (
             if op is Some { r is Err && at(r->Err_0, lhs.1) && inner(r->Err_0) is OpOnRangeIndex }
             else { match sem_expr(old(scopes).world(), *expr).0 {
@@ -172,6 +202,7 @@ SPEC_BOA = r"""
         (r is Ok) == (slot_after(*old(lhs), rhs, op) is Some), // [C06_C12_C16:op_assign_on_an_element_or_property_fails_exactly_when_the_operator_fails]
         r is Ok ==> *final(lhs) == slot_after(*old(lhs), rhs, op)->0, // [C06_C12_C16:op_assign_on_an_element_or_property_stores_old_value_op_rhs_and_plain_assign_stores_rhs]
         r is Err ==> *final(lhs) == *old(lhs), // [C06:failed_operator_leaves_the_slot_unchanged]
+        shows_op_position(r, *old(lhs), rhs, op), // [C18:a_failing_op_assign_shows_the_position_of_the_operator_first]
         r matches Err(e) ==> located(e), // [C17:binding_errors_are_located]
 """
 
